@@ -435,6 +435,9 @@ where
         let data = rec.data();
 
         if let Some(existing_rrset) = tree_node.get_rrset(rtype).await? {
+            // Deleting a record does not change the TTL of the records
+            // that remain.
+            rrset.set_ttl(existing_rrset.ttl());
             for existing_data in existing_rrset.data() {
                 if existing_data != data {
                     rrset.push_data(existing_data.clone());
